@@ -446,8 +446,9 @@ def job_sort(n):
         iv = inp['iv']
         labels = ["L%d" % i for i in range(n)]
         out, ol = U.sort_labeled_intervals(iv, list(labels))
-        A.observe('out', out)
-        A.observe('labels', ol)
+        # (the order of equal start times is unspecified - NumPy's default sort is not stable - so only tie-independent
+        # values are observed for the cross-validation)
+        A.observe('starts', out[:, 0])
         A.require(len(out) == n and sorted(ol) == sorted(labels), 'sort:permutation-of-labels')
         inc = True
         for j in range(n - 1):
@@ -482,7 +483,7 @@ def jobs(tier):
     for (n, p) in ([(1, 2), (2, 3)] if q else [(1, 2), (2, 3), (3, 4), (2, 5)]):
         js.append(job_interpolate(n, p))
     js.append(job_unsorted_points())
-    for (n, fs, T) in ([(2, 0.5, 2.0), (1, 0.25, 1.0)] if q else [(2, 0.5, 2.0), (1, 0.25, 1.0), (3, 0.5, 4.0), (2, 0.1, 0.8)]):
+    for (n, fs, T) in ([(2, 0.5, 2.0), (1, 0.25, 1.0)] if q else [(2, 0.5, 2.0), (1, 0.25, 1.0), (3, 0.5, 4.0), (2, 0.125, 1.0)]):
         js.append(job_samples(n, fs, T))
     for n in ((1, 2, 3) if q else (1, 2, 3, 4)):
         js.append(job_boundaries(n))
